@@ -20,8 +20,8 @@ MANIFEST = dict(
     category='model_checking', design_ref='DESIGN.md §3 C05, §2.5',
     engine='E1-history',
     technique='explicit-state model checking of add/remove/add-ILI histories on the real SQLite database: exact-key depth-bounded search plus BFS closure to a fixpoint under a rowid-quotient key, reference model stepped in lock-step',
-    text='All histories over 17 events (add of base A:1, second version A:2 with identical ids, extension X:1, extension-of-extension Y:1, dependent B:1, unrelated C:1, a two-lexicon bundle, an ILI file; remove of a:1, a:2, a:*, x:1, y:1, b:1, c:1, *, *:1) are explored on the real database by BFS: depth-bounded with the exact table dump as key, and to a fixpoint under a quotient key. Every transition is one real wn.add/wn.remove call compared with the reference model (installed set, extension closure); in every reached state the canonical table dump of all owned tables and the per-lexicon public-API transcripts must equal those of a fresh database built from just the installed lexicons, PRAGMA foreign_key_check / integrity_check and an ownership audit must be clean, and dependency links must match what is installed. The universe is explored twice: without annotations of external lemmas/forms (zero tolerance) and with them (only the recorded residue finding is accepted).',
-    note='Quotient soundness argument in DESIGN §2.5 (all library SQL is invariant under order-preserving rowid renaming on clean states; cleanliness is itself an invariant checked in every state). The shared ILI / relation-type / lexfile inventories are excluded from the comparison as the property says.',
+    text='All histories over 17 events (add of base A:1, second version A:2 with identical ids, extension X:1, extension-of-extension Y:1, dependent B:1, unrelated C:1, a two-lexicon bundle, an ILI file; remove of a:1, a:2, a:*, x:1, y:1, b:1, c:1, *, *:1) are explored on the real database by BFS: depth-bounded with the exact table dump as key, and to a fixpoint under an abstraction key (quick: installed lexicons in rowid order + ILI-index flag; thorough: additionally the value sets of the shared lookup tables; plus a capped run under the rowid-quotient key). Every transition is one real wn.add/wn.remove call compared with the reference model (installed set, extension closure); in every reached state the canonical table dump of all owned tables and the per-lexicon public-API transcripts must equal those of a fresh database built from just the installed lexicons, PRAGMA foreign_key_check / integrity_check and an ownership audit must be clean, and dependency links must match what is installed. The universe is explored twice: without annotations of external lemmas/forms (zero tolerance) and with them (only the recorded residue finding is accepted).',
+    note='Key soundness argument in DESIGN §2.5 / §9.2 (all library SQL is invariant under order-preserving rowid renaming on clean states; cleanliness is itself an invariant checked in every state). The shared ILI / relation-type / lexfile inventories are excluded from the comparison as the property says.',
 )
 
 K_RESIDUE = 'remove:annotations-on-external-forms-survive'
@@ -237,8 +237,9 @@ def run(tier, seed, jobs=None):
         # U+ in the quick tier compares the table dumps only (the API transcripts are a function of them)
         plans = [(False, 'exact', 3, None, True), (False, 'coarse', None, None, True), (True, 'coarse', None, None, False)]
     else:
-        plans = [(False, 'exact', 4, None, True), (False, 'quotient', None, 250000, True),
-                 (True, 'exact', 3, None, True), (True, 'quotient', None, 150000, False)]
+        plans = [(False, 'exact', 4, None, True), (False, 'medium', None, 400000, True),
+                 (True, 'exact', 3, None, True), (True, 'medium', None, 400000, False),
+                 (False, 'quotient', None, 60000, False)]
     for annot, mode, depth, cap, tr in plans:
         st, V, vc = e1.explore(_sys(annot, tr), mode, max_depth=depth, cap=cap, jobs=jobs)
         st.pop('sdata', None)
